@@ -51,17 +51,19 @@ type LifeScenario struct {
 	PeerStalled        bool   `json:"peer_stalled"`                  // with slow_server: the peer never reads again (a write in flight returns only when the socket is closed)
 	TimeoutMs          int    `json:"timeout_ms"`                    // Config.Timeout (0 = the scenario's default of 3 s): a legal, rarely tuned value
 	CloseInDiscHandler bool   `json:"close_in_disconnected_handler"` // the DISCONNECTED handler calls Close itself (a shared shutdown routine): on a client that is not connected that does nothing, and returns
+	CarelessSender     bool   `json:"careless_sender"`               // with out_from=user: the user goroutine goes on calling Privmsg whether or not the client is connected (it ends up waiting in Raw on the dead connection's full queue: an application goroutine, not one of the connection's)
 	OverlapConnect     bool   `json:"overlap_connect"`               // two goroutines call Connect at about the same time while the client is down; the first one's dial takes a while
 	HoldMs             int    `json:"hold_ms"`                       // the gated foreground handler keeps working this long after the cause (longer than Timeout, say)              // before the cause the server stays connected but silent for this long, never answering the client's PINGs (Timeout is set to a fifth of it)
 }
 
 type LifeResult struct {
-	Log        []string `json:"log"`
-	Stuck      string   `json:"stuck,omitempty"` // non-empty: teardown did not complete; holds the wait-for evidence
-	Leaked     []string `json:"leaked,omitempty"`
-	Transcript []string `json:"transcript,omitempty"` // first lines of the last connection
-	Notes      []string `json:"notes,omitempty"`
-	Crash      string   `json:"crash,omitempty"`
+	Log            []string `json:"log"`
+	Stuck          string   `json:"stuck,omitempty"`           // non-empty: teardown did not complete; holds the wait-for evidence
+	ReconnectStuck string   `json:"reconnect_stuck,omitempty"` // non-empty: a Connect made after DISCONNECTED had not returned after 10 s; holds the goroutine evidence
+	Leaked         []string `json:"leaked,omitempty"`
+	Transcript     []string `json:"transcript,omitempty"` // first lines of the last connection
+	Notes          []string `json:"notes,omitempty"`
+	Crash          string   `json:"crash,omitempty"`
 }
 
 type lifeLog struct {
@@ -424,7 +426,7 @@ func runLifeScenario(sc LifeScenario) LifeResult {
 			defer close(userDone)
 			defer func() { recover() }()
 			for i := 0; i < sc.OutBacklog; i++ {
-				if !conn.Connected() {
+				if !conn.Connected() && !sc.CarelessSender {
 					return
 				}
 				conn.Privmsg("#c", fmt.Sprintf("user out %d", i))
@@ -593,9 +595,12 @@ func runLifeScenario(sc LifeScenario) LifeResult {
 		var rerr error
 		select {
 		case rerr = <-reconnected:
-		case <-time.After(3 * time.Second):
+		case <-time.After(10 * time.Second):
 			res.Notes = append(res.Notes, "reconnect did not return")
-			continue
+			// not a timing verdict by itself: what the library's goroutines are waiting for goes into the result
+			res.ReconnectStuck = strings.Join(libGoroutines(), " | ")
+			res.Log = lg.evs
+			return res // whatever else the scenario would do needs the mutex that Connect is sitting on
 		}
 		if rerr != nil {
 			res.Notes = append(res.Notes, "reconnect failed: "+rerr.Error())
@@ -652,7 +657,14 @@ func runLifeScenario(sc LifeScenario) LifeResult {
 		}
 		time.Sleep(2 * time.Millisecond) // let the DISCONNECTED handler decide about another cycle
 	}
-	<-userDone
+	if sc.CarelessSender { // it may be waiting in Raw on the dead connection's queue for good: that is its own business
+		select {
+		case <-userDone:
+		case <-time.After(200 * time.Millisecond):
+		}
+	} else {
+		<-userDone
+	}
 	// Close on a client that is not connected does nothing: no life-cycle event may fire
 	// (other closers' "close-ret" records may still be arriving: only handler events count)
 	if conn.Connected() == false {
@@ -666,8 +678,18 @@ func runLifeScenario(sc LifeScenario) LifeResult {
 	}
 	time.Sleep(5 * time.Millisecond)
 	// goroutines of the connection must be gone
-	waitFor(func() bool { return len(libGoroutines()) == 0 }, 500*time.Millisecond)
-	res.Leaked = libGoroutines()
+	ownGoroutines := func() []string {
+		var out []string
+		for _, g := range libGoroutines() {
+			if sc.CarelessSender && (strings.HasPrefix(g, "Raw<Privmsg ") || strings.HasPrefix(g, "Raw [chan send]")) { // the application's sender, waiting in Raw
+				continue
+			}
+			out = append(out, g)
+		}
+		return out
+	}
+	waitFor(func() bool { return len(ownGoroutines()) == 0 }, 500*time.Millisecond)
+	res.Leaked = ownGoroutines()
 	res.Log = lg.evs
 	return res
 }
